@@ -184,7 +184,7 @@ def names_values(ctx, L, part, nparts):
                     continue
                 judge(ctx, BASE[context] + [(s, b"v")], context, edge(s), "name-len%d" % ln)
                 judge(ctx, BASE[context] + [(b"x", s)], context, edge(s) or s[0] in (0x20, 9) or s[-1] in (0x20, 9), "value-len%d" % ln)
-            if i % 997 == 0:
+            if ctx.want_sample():
                 ctx.sample({"context": "request", "headers": BASE["request"] + [(s, b"v")]})
     # fixed extras: empty name / empty value / upper-case inside long names
     for context in ("request", "response", "trailers"):
@@ -236,7 +236,7 @@ def pseudo_sequences(ctx, L, part, nparts):
                 continue
             for context in ("request", "response", "trailers", "push"):
                 judge(ctx, list(seq), context, rules_broken(seq, context) == 1, "pseudo-len%d" % ln)
-            if i % 499 == 0:
+            if ctx.want_sample():
                 ctx.sample({"context": "response", "headers": list(seq)})
 
 
@@ -288,7 +288,7 @@ def content_length_cases(ctx, part, nparts, deep):
                             case = {"kind": "content-length", "role": role, "spelling": sp, "body": body, "trailers": trailers, "end": endmode, "chunks": [len(c) for c in chunks]}
                             near = declared is not None and abs(declared - total) <= 1
                             ctx.case((sp, tuple(body), trailers, role, endmode, tuple(len(c) for c in chunks)), nontrivial=near, classes=["content-length:" + ("digits" if digits else "other-spelling")])
-                            if i % 211 == 0:
+                            if ctx.want_sample():
                                 ctx.sample(case)
                             if declared is None:
                                 continue
@@ -328,7 +328,7 @@ def random_blocks(ctx, examples, shard):
         headers = (BASE[context] if with_base else []) + [(bytes(n), bytes(val)) for n, val in fields]
         nt = any(edge(n) or edge(val) for n, val in fields)
         judge(ctx, headers, context, nt, "random-block")
-        if ctx.evaluations % 700 == 0:
+        if ctx.want_sample():
             ctx.sample({"context": context, "headers": headers})
 
     run_hypothesis(ctx, body, strat, examples, shard=shard)
